@@ -772,7 +772,7 @@ func (s *scene) hashes(n int) []string {
 
 var bigPage = "<html><head><title>503 Service Temporarily Unavailable</title></head><body>" + strings.Repeat("<p>The log is over quota, please come back later.</p>\n", 30) + "</body></html>"
 
-var bodyVariants = []string{bigPage, bigPage[:513], bigPage[:600], "{\"error\":\"" + strings.Repeat("x", 700) + "\"", "", "null", "[]", "{}", `"x"`, "0", "<html><body>502 Bad Gateway</body></html>", "{", "\x00\x00\x00", "true"}
+var bodyVariants = []string{" ", "\n", "\t\r\n  ", bigPage, bigPage[:513], bigPage[:600], "{\"error\":\"" + strings.Repeat("x", 700) + "\"", "", "null", "[]", "{}", `"x"`, "0", "<html><body>502 Bad Gateway</body></html>", "{", "\x00\x00\x00", "true"}
 
 var oddHeaders = [][2]string{
 	{"Content-Type", "text/html; charset=utf-16"}, {"Retry-After", "1"}, {"Retry-After", "soon"}, {"Content-Length", "3"},
